@@ -369,6 +369,11 @@ pub(crate) fn convert_doc(svg_doc: &svgtree::Document, opt: &Options) -> Result<
     }
 
     let root_ts = view_box.to_transform(tree.size());
+    if !root_ts.is_finite() {
+        // Like an element with an invalid transform, the content cannot be rendered.
+        return Ok(tree);
+    }
+
     if root_ts.is_identity() && background_color.is_none() {
         convert_children(svg_doc.root(), &state, &mut cache, &mut tree.root);
     } else {
